@@ -349,12 +349,13 @@ def rule_nceform(ctx):
         if z is not None and z.op == "ite" and z.a[0].op == "param" and z.a[0].a[0] == "marginal":
             zm, zu = z.a[1], z.a[2]
             # uniform: log2(contingency.shape[dim]); marginal: entropy(contingency.sum(axis=axis_marg))
-            u_ok = zu.op == "call" and call_name(zu) == "np.log2" and zu.a[1][0].op == "sub" and zu.a[1][0].a[0].op == "attr" and zu.a[1][0].a[0].a[1] == "shape" and tm.is_const(zu.a[1][0].a[1], dim) and any(x.op == "call" and call_name(x) == "segment._contingency_matrix" for x in tm.walk(zu))
+            dm_ = common.dim_of(zu.a[1][0]) if zu.op == "call" and call_name(zu) == "np.log2" and zu.a[1] else None
+            # the table itself (possibly normalised: contingency / contingency.sum()), not one of its marginals
+            direct_ = dm_ is not None and not any(x.op == "call" and call_name(x) == "np.sum" and any(k_ == "axis" for k_, _ in x.a[2]) for x in tm.walk(dm_[0]))
+            u_ok = dm_ is not None and dm_[1] == dim and direct_ and any(x.op == "call" and call_name(x) == "segment._contingency_matrix" for x in tm.walk(zu))
             marg = None
-            if not u_ok and zu.op == "call" and call_name(zu) == "np.log2" and zu.a[1][0].op == "sub" and zu.a[1][0].a[0].op == "attr" and zu.a[1][0].a[0].a[1] == "shape" and tm.is_const(zu.a[1][0].a[1], 0):
-                marg = zu.a[1][0].a[0].a[0]
-            elif not u_ok and zu.op == "call" and call_name(zu) == "np.log2" and zu.a[1][0].op == "call" and call_name(zu.a[1][0]) == "builtins.len" and len(zu.a[1][0].a[1]) == 1:
-                marg = zu.a[1][0].a[1][0]  # len(marginal)
+            if not u_ok and dm_ is not None and dm_[1] == 0 and not direct_:
+                marg = dm_[0]  # len(marginal) / marginal.shape[0]
             if marg is not None:
                 # length of the marginal over axis k of the contingency table = its dimension 1 - k
                 sums = [x for x in tm.walk(marg) if x.op == "call" and call_name(x) == "np.sum" and x.a[1] and any(y.op == "call" and call_name(y) == "segment._contingency_matrix" for y in tm.walk(x.a[1][0]))]
